@@ -112,6 +112,31 @@ def add_family(rng, quick, prefix="add", serve=False):
     return out
 
 
+def refused_family(rng, quick, prefix="refused", subjects=("rr",)):
+    """Administration calls that are REFUSED (unknown server removed, invalid weight for a known or a new server, a refused
+    add) between selections: they change nothing, so the rotation goes on where it was."""
+    out = []
+    for j in range(40 if quick else 300):
+        n = rng.randint(2, 4)
+        ws = [rng.choice([1, 1, 2, 3]) for _ in range(n)]
+        keys = KEYS[:n]
+        subject = rng.choice(list(subjects))
+        steps = pool_setup_steps(rng, ws, keys=keys, history=False, variants=1)
+        for _ in range(rng.randint(8, 20)):
+            steps.append({"op": "pick"} if subject == "rr" and rng.random() < 0.6 else {"op": "serve", "mut": "none"})
+            x = rng.random()
+            if x < 0.35:
+                steps.append({"op": "remove", "k": KEYS[n + rng.randrange(2)], "v": 0})            # unknown server
+            elif x < 0.6:
+                steps.append({"op": "upsert", "k": rng.choice(keys), "v": 0, "w": -1, "w2": -1, "keepvar": True})  # known, invalid
+            elif x < 0.75:
+                steps.append({"op": "upsert", "k": KEYS[n + rng.randrange(2)], "v": 0, "w": -1, "w2": -1})        # new, invalid
+            elif x < 0.85 and subject != "rr":
+                steps.append({"op": "upsert", "k": KEYS[n + rng.randrange(2)], "v": 0, "w": 1, "meterfail": True})
+        out.append({"id": "%s-%d" % (prefix, j), "cfg": {"subject": subject, "table": j}, "steps": steps})
+    return out
+
+
 def classify(clause, sc, report, evs):
     """Signature of a contract report: clause + the abstract situation in which it happened."""
     subject = sc.get("cfg", {}).get("subject", "rr")
